@@ -530,6 +530,12 @@ func Guards(in ssa.Instruction) []Guard { return BlockGuards(in.Block()) }
 // `to`, never stepping over an instruction satisfying `avoid`. It returns the
 // blocks of one such path, or nil if none exists.
 func FindPath(fn *ssa.Function, from ssa.Instruction, to, avoid func(ssa.Instruction) bool) []ssa.Instruction {
+	return FindPathSkipping(fn, from, to, avoid, nil)
+}
+
+// FindPathSkipping is FindPath on the CFG with the edges for which skipEdge
+// returns true removed.
+func FindPathSkipping(fn *ssa.Function, from ssa.Instruction, to, avoid func(ssa.Instruction) bool, skipEdge func(from, to *ssa.BasicBlock) bool) []ssa.Instruction {
 	type node struct {
 		b    *ssa.BasicBlock
 		prev *node
@@ -575,6 +581,9 @@ func FindPath(fn *ssa.Function, from ssa.Instruction, to, avoid func(ssa.Instruc
 		queue = queue[1:]
 		for _, s := range n.b.Succs {
 			if seen[s] {
+				continue
+			}
+			if skipEdge != nil && skipEdge(n.b, s) {
 				continue
 			}
 			seen[s] = true
@@ -714,8 +723,14 @@ func MayBeNil(v ssa.Value) (nilPossible bool, known bool) {
 				continue
 			}
 		}
-		if _, ok := o.(*ssa.Global); ok {
+		switch x := o.(type) {
+		case *ssa.Global, *ssa.Alloc, *ssa.MakeClosure, *ssa.Function:
 			continue
+		case *ssa.UnOp:
+			// a package-level error variable (werrors.ErrCancelled, ErrStop, io.EOF)
+			if _, ok := x.X.(*ssa.Global); ok && x.Op == token.MUL {
+				continue
+			}
 		}
 		anyUnknown = true
 	}
